@@ -327,10 +327,19 @@ func Not(c *Term) *Term {
 		return c.Args[0]
 	}
 	if c.Op == "ite" && c.Sort == Bool {
-		return Ite(c.Args[0], Not(c.Args[1]), Not(c.Args[2]))
+		// memoised: merged conditions are DAGs with heavily shared sub-terms, and the recursion is exponential on them
+		// otherwise
+		if r, ok := notMemo[c]; ok {
+			return r
+		}
+		r := Ite(c.Args[0], Not(c.Args[1]), Not(c.Args[2]))
+		notMemo[c] = r
+		return r
 	}
 	return App(Bool, "not", c)
 }
+
+var notMemo = map[*Term]*Term{}
 
 // Eq builds an equality test (Bool).
 func Eq(a, b *Term) *Term {
